@@ -270,7 +270,7 @@ class CallMixin:
         recv = self.force(recv)
         if isinstance(recv, VRef) and recv.kind == "obj":
             rec = self.run.rec(recv.oid)
-            ci = self.repo.find_class(rec.cls)
+            ci = self.repo.find_class(rec.cls) or self.repo.find_class(getattr(self, "class_alias", {}).get(rec.cls, ""))
             if ci is None:
                 raise E.Unsupported(f"class {rec.cls}")
             # method declared as havocked collaborator in the contract?
